@@ -661,6 +661,8 @@ def declare_transports(w):
                    cases=[Case("ok", post=lambda a, h, h2, r: [h2("Popen", a.self, "$killed")]),
                           Case("gone", "raise", "OSError", post=lambda a, h, h2, e: [h2("Popen", a.self, "$killed")])], trusted=True,
                    note="subprocess.Popen.kill(): SIGKILL, never blocks; OSError only when the process is gone"))
+    w.add(Contract("model:Popen.terminate", {"self": REF("Popen")}, cases=[Case("ok"), Case("gone", "raise", "OSError")], trusted=True,
+                   note="subprocess.Popen.terminate(): SIGTERM - a request the process may ignore, catch, or (while stopped) never see; it does NOT establish $killed"))
     w.externals["sys.stderr.write"] = lambda ex, args, kwargs, st, sink, node: iter([(st, mk_int(0))])
     w.externals["sys.stderr.flush"] = lambda ex, args, kwargs, st, sink, node: iter([(st, NONEV)])
     w.add(Contract(f"{GIO}:Popen2IOMaster.wait", {"self": REF("Popen2IOMaster")}, requires=lambda a, h: [("popen", h("Popen2IOMaster", a.self, "popen") != 0)],
